@@ -7,7 +7,7 @@ import vlib
 ASSUMPTIONS = [
     "the theorems are about BencodeModel.v; the tie to src/bencode/parser.rs is the differential run (exhaustive over a bencode alphabet up to a length bound + generated inputs)",
 ]
-SIGMA = b"deil012:-a"
+SIGMA = b"deil012:-a+"
 
 
 def gen_cases(ctx, tier=None):
